@@ -734,6 +734,9 @@ func convertUpdateTypedValue(_ context.Context, upd *sdcpb.Update, scRsp *sdcpb.
 			return nil, fmt.Errorf("unexpected leaf-list typedValue: %v", upd.GetValue())
 		}
 	case scRsp.GetSchema().GetField() != nil:
+		if upd.GetValue() == nil {
+			return nil, fmt.Errorf("update of %s carries no value", ToXPath(upd.GetPath(), false))
+		}
 		ctv, err := TypedValueToYANGType(upd.GetValue(), scRsp.GetSchema())
 		if err != nil {
 			return nil, err
